@@ -83,7 +83,10 @@ class Env:
 
 
 def _stub_human_readable(value, unit):
-    """Non-forking summary of Unit.get_human_readable_unit (instruction text only; subject of C19)."""
+    """Non-forking summary of Unit.get_human_readable_unit (instruction text only; subject of C19): volumes are
+    always reported in uL (one fixed prefix instead of the data-dependent rescaling loop), everything else as given."""
+    if unit[-1:] == 'L':
+        return value * 1e6, 'uL'
     return value, unit
 
 
